@@ -176,6 +176,10 @@ func runOne(sc *scen, st sched.Strategy, settle bool, hit map[int]bool) (rs resu
 		ac.SetReadDeadline(time.Now().Add(2 * time.Second))
 		if n, err := ac.Read(buf); err != nil || string(buf[:n]) != fmt.Sprintf("hello%d", i) {
 			cleanup(append(conns, ac))
+			if err == nil && strings.HasPrefix(string(buf[:n]), "late") {
+				// a datagram of an earlier scenario of this process whose port the kernel has given to this listener
+				return result{desc: "inconclusive: setup: a stray datagram of an earlier scenario arrived at the new listener"}
+			}
 			return result{key: "udp:first-datagram", desc: fmt.Sprintf("first read of an accepted connection = %q,%v", buf[:n], err)}
 		}
 		ac.SetReadDeadline(time.Time{})
@@ -262,8 +266,21 @@ func runOne(sc *scen, st sched.Strategy, settle bool, hit map[int]bool) (rs resu
 			atomic.StoreInt32(&readRet[i], 1)
 		}))
 	}
+	var dwg sync.WaitGroup
+	// a task that the schedule never ran is released when the scheduler stops and runs to its end on its own; the late
+	// datagram must have been sent (or not) before this scenario's port can be handed to the next listener
+	defer func() {
+		dd := make(chan struct{})
+		go func() { dwg.Wait(); close(dd) }()
+		select {
+		case <-dd:
+		case <-time.After(5 * time.Second):
+		}
+	}()
 	if sc.Late != "" {
+		dwg.Add(1)
 		s.Go("D", guard("late datagram", func() {
+			defer dwg.Done()
 			if sc.Late == "known" && len(cl) > 0 {
 				cl[0].Write([]byte("late"))
 			} else {
@@ -278,11 +295,18 @@ func runOne(sc *scen, st sched.Strategy, settle bool, hit map[int]bool) (rs resu
 	}
 	s.Stop()
 	udp.VerifYield, packetio.VerifYield, deadline.VerifYield = nil, nil, nil
+	// "has Accept returned" is read BEFORE its result: the task stores the result first and the flag afterwards, so a
+	// set flag guarantees that the result below is the one Accept returned (reading the flag later raced with an Accept
+	// returning in between and produced a false "Accept returned (nil, nil)" on a loaded machine)
+	accRet := atomic.LoadInt32(&accReturned) == 1
 	mu.Lock()
 	rs.closeOrd = strings.Join(order, "")
 	pan := append([]string{}, panics...)
 	ac, aerr := accConn, accErr
 	mu.Unlock()
+	if !accRet {
+		ac, aerr = nil, nil // whatever arrived in between is picked up by the end phase
+	}
 	all := append([]net.Conn{}, conns...)
 	if ac != nil {
 		all = append(all, ac)
@@ -331,7 +355,7 @@ func runOne(sc *scen, st sched.Strategy, settle bool, hit map[int]bool) (rs resu
 			}
 		}
 	}
-	if sc.PendAccept && atomic.LoadInt32(&accReturned) == 1 && ac == nil && aerr == nil {
+	if sc.PendAccept && accRet && ac == nil && aerr == nil {
 		return fail("udp:accept-nil", "Accept returned (nil, nil)")
 	}
 	// which accepted connections are still open?
